@@ -23,7 +23,8 @@ def parse_rec(text):
         for item in right.split():
             k, _, v = item.partition('=')
             env[k] = unhex(v) if v else ''
-        out.append({'cwd': unhex(toks[0]), 'argv': [unhex(t) for t in toks[2:]], 'env': env})
+        out.append({'cwd': unhex(toks[0]), 'argv0': unhex(toks[1]) if len(toks) > 1 else None,
+                    'argv': [unhex(t) for t in toks[2:]], 'env': env})
     return out
 
 
